@@ -28,12 +28,18 @@ def coq_opt(v, f=str):
 
 
 def coq_opts(o):
+    # cache sizes are counted in half megabytes in the model (fractional sizes such as 0.5 MB are legal)
     return "{| o_path := %s; o_meta := %s; o_cache := %s; o_ro := %s |}" % (
-        coq_opt(o.get("path")), coq_opt(o.get("meta")), coq_opt(o.get("cache")), coq_opt(o.get("ro"), C.coq_bool))
+        coq_opt(o.get("path")), coq_opt(o.get("meta")), coq_opt(None if o.get("cache") is None else half(o["cache"])), coq_opt(o.get("ro"), C.coq_bool))
+
+
+def half(mb):
+    h = mb * 2
+    return int(h) if h == int(h) else 9998
 
 
 def coq_eff(e):
-    return "{| e_path := %d; e_meta := %d; e_cache := %d; e_ro := %s |}" % (e["path"], e["meta"], e["cache"], C.coq_bool(e["ro"]))
+    return "{| e_path := %d; e_meta := %d; e_cache := %d; e_ro := %s |}" % (e["path"], e["meta"], half(e["cache"]), C.coq_bool(e["ro"]))
 
 
 class Paths:
@@ -84,7 +90,7 @@ def observe(storage, paths):
         mc = storage._memory_cache
         cache = 0 if mc is None else mc.memory_cache_bytes / 1024 / 1024
         return {"path": paths.ident(storage.config_path), "meta": paths.ident(storage.metadata_config_path),
-                "cache": int(cache) if cache == int(cache) else 98, "ro": bool(storage.read_only)}
+                "cache": cache, "ro": bool(storage.read_only)}
     return {"path": 0, "meta": 0, "cache": 0, "ro": bool(storage.read_only)}
 
 
@@ -95,7 +101,7 @@ def observe_dict(d, paths):
     if "metadata_path" in d:
         o["meta"] = paths.ident(d["metadata_path"])
     if "memory_cache_mb" in d:
-        o["cache"] = int(d["memory_cache_mb"]) if d["memory_cache_mb"] == int(d["memory_cache_mb"]) else 98
+        o["cache"] = d["memory_cache_mb"]
     if "readonly" in d:
         o["ro"] = bool(d["readonly"])
     return o
@@ -128,7 +134,7 @@ def run(tier, seed):
         def combos(kind):
             if kind == "filesystem":
                 # meta: None, a distinct directory, or the same directory as the data (whatever that is)
-                for path, meta, cache, ro in itertools.product([None, 1, 3], [None, 2, "same"], [None, 0, 4], [None, False, True]):
+                for path, meta, cache, ro in itertools.product([None, 1, 3], [None, 2, "same"], [None, 0, 4, 0.5, 1.5], [None, False, True]):
                     o = {"path": path, "cache": cache, "ro": ro}
                     o["meta"] = (path if path is not None else 0) if meta == "same" else meta
                     yield o
